@@ -201,6 +201,11 @@ def one_case(ctx, drv, env_priv, env_pub):
         if model.get('err') == 'abstain':
             ctx.count('model-abstained')
             return
+        if signed_subs and edits and impl.get('err', '').startswith('gemato:OpenPGP'):
+            # an edit hit a signed sub-Manifest: gpg rejects its signature when the file is loaded; what gpg accepts is not
+            # part of the tree model (C04/C05 own it) - a diagnosed failure, counted, not compared
+            ctx.count('signed-sub-manifest-tampered(model abstains)')
+            return
         if 'err' in model or 'err' in impl:
             if model.get('err') != impl.get('err'):
                 ctx.disagree('sign(error)', scen2, impl, {k: v for k, v in model.items() if k != 'loaded'})
